@@ -63,14 +63,21 @@ impl Frame {
 
         let msg_id = Self::get_message_id(crs)?;
 
-        if FromPrimitive::from_u8(msg_id) != Some(MsgId::HandshakeId) && length > MAX_FRAME_SIZE {
+        // Handshake has no ID: it is recognised by the first five bytes of its protocol string.
+        // Any other message with the same byte at the ID position is just an unknown one.
+        let msg_kind = match FromPrimitive::from_u8(msg_id) {
+            Some(MsgId::HandshakeId) if !Handshake::starts(crs.get_ref()) => None,
+            kind => kind,
+        };
+
+        if msg_kind != Some(MsgId::HandshakeId) && length > MAX_FRAME_SIZE {
             return Err(Error::MsgToLarge);
         }
 
         let protocol_id_length = Self::get_protocol_id_length(crs)?;
         let available_data = Self::available_data(crs);
 
-        match FromPrimitive::from_u8(msg_id) {
+        match msg_kind {
             Some(MsgId::HandshakeId) => {
                 crs.set_position(Handshake::check(crs, protocol_id_length, available_data)? as u64);
                 Ok(Frame::Handshake(Handshake::from(crs)))
